@@ -37,6 +37,10 @@ context-switch; pools in c08_ctx.py; step kinds 'update' / 'update+Config'), and
 differ, each with a cache of its own or none (clause snippet-table-switch; tables built for every built-in property family in
 c08_tables.py). `check_probes(steps, probes)` = check_history with several probe calls after one history.
 
+Round 5: stylesheet abbreviations that call a *keyword function with explicit arguments* (`trf-s(2, 3)`, `gtc:repeat(3, 1fr)`) and
+later calls that use the same function with fewer / no arguments or the bare snippet, through one cache / one caller object (clause
+function-arguments; functions read from the raw css table + user tables, generators in c08_funcs.py).
+
 A step is a JSON dict {'abbr', 'cfg' (plain config dict without cache), 'how': 'fresh' | 'dict' | 'Config' | 'update' |
 'update+Config', 'obj': id of the shared caller object (for how != 'fresh'), 'cache': id of a shared cache dict or None}.
 'dict' / 'Config': one object built once from `cfg` and used unchanged by all steps with that id; 'update': one dict per id
@@ -54,7 +58,7 @@ import subprocess
 import sys
 
 from .common import Clause, run_parallel, REPO
-from . import c08_opts, c08_ctx, c08_tables
+from . import c08_opts, c08_ctx, c08_tables, c08_funcs
 
 CHECK_CACHE_ACROSS_SNIPPET_TABLES = False
 
@@ -786,7 +790,26 @@ def run(tier, seed):
                '%d histories, %d probes' % (len(g_tab), sum(len(ps) for _, ps in g_tab)), rule_4, exhaustive=False)
     run_parallel(c, 'bounded.c08', 'check_probes', g_tab, chunk=10)
     out.append(c.done())
-    del g_cache, g_obj, g_ind, g_rnd, g_mkc, g_nest, g_opt, g_unit, g_ctx, g_sctx, g_tab
+    # round 5: keyword functions with explicit arguments (c08_funcs.py)
+    g_fn = list(c08_funcs.gen_function_args(seed, 120 if quick else 8000))
+    n_probes5 = _precompute([[(st, p) for st, ps in g_fn for p in ps]], forked=True)
+    rule_5 = ('a case is one history plus several probe calls made one after the other (check_probes); every probe outcome is '
+              'compared with the same call (equal, freshly built configuration, no cache) made as the first expand call of a process '
+              'forked from an interpreter that has only imported the library (%d distinct probes, one process each); distinct by '
+              'the JSON of history + probes' % n_probes5)
+    n_fn = len(c08_funcs.function_entries())
+    c = Clause('function-arguments', 'B', 'stylesheet calls that use a keyword function of a snippet with explicit arguments, then calls that use '
+               'the same function with no / fewer / more arguments, the bare snippet, a sibling function. %d functions: every `name(...)` '
+               'alternative of every built-in property snippet (own reading of the raw css table, with its default argument count) + %d user '
+               'tables with functions of 0..4 default arguments; aliases = prefixes / initials / full name, both separators; arguments from a '
+               'pool of %d. Per function: first call with as many arguments as defaults, one, one more -- through fresh dicts + one cache, '
+               'one caller dict, one Config (with a raising call in between), callers with differing options / syntaxes on one cache, in the '
+               'value context of the property, and without any cache (control); + seeded histories of 1..4 calls'
+               % (n_fn, len(c08_funcs.USER_TABLES), len(c08_funcs.ARGS)),
+               '%d histories, %d probes' % (len(g_fn), sum(len(ps) for _, ps in g_fn)), rule_5, exhaustive=False)
+    run_parallel(c, 'bounded.c08', 'check_probes', g_fn, chunk=15)
+    out.append(c.done())
+    del g_cache, g_obj, g_ind, g_rnd, g_mkc, g_nest, g_opt, g_unit, g_ctx, g_sctx, g_tab, g_fn
     g_ret = list(gen_retention(seed, 300 if quick else 5000))
     c = Clause('no-retention', 'B', 'every pool (abbreviation, configuration) pair as fresh dict and as shared Config, plus seeded random histories; '
                'warm-up twice, snapshot, repeat 2-3 times, snapshot', '%d call sequences' % len(g_ret),
